@@ -387,7 +387,9 @@ var extWrites = map[string]int{
 	"fmt.Fprint": 0, "fmt.Fprintf": 0, "fmt.Fprintln": 0, "io.WriteString": 0,
 	"sort.Strings": 0, "sort.Ints": 0, "sort.Float64s": 0, "sort.Slice": 0, "sort.SliceStable": 0, "sort.Sort": 0, "sort.Stable": 0,
 	"slices.Sort": 0, "slices.SortFunc": 0, "slices.SortStableFunc": 0, "slices.Reverse": 0,
-	"math/rand.Shuffle":  1,
+	"math/rand.Shuffle": 1,
+	"(*sync.Map).Store": 0, "(*sync.Map).LoadOrStore": 0, "(*sync.Map).Delete": 0, "(*sync.Map).Swap": 0, "(*sync.Map).CompareAndSwap": 0, "(*sync.Map).LoadAndDelete": 0, "(*sync.Map).Clear": 0,
+	"(*sync/atomic.Bool).Store": 0, "(*sync/atomic.Int64).Store": 0, "(*sync/atomic.Int64).Add": 0, "(*sync/atomic.Int32).Store": 0, "(*sync/atomic.Int32).Add": 0, "(*sync/atomic.Value).Store": 0, "(*sync/atomic.Pointer).Store": 0,
 	"(*sync.Mutex).Lock": -1, "(*sync.Mutex).Unlock": -1, "(*sync.RWMutex).Lock": -1, "(*sync.RWMutex).Unlock": -1, "(*sync.RWMutex).RLock": -1, "(*sync.RWMutex).RUnlock": -1,
 }
 
@@ -514,6 +516,13 @@ func (ea *effectAnalysis) analyse(fn *ssa.Function) bool {
 					name = "dynamic call"
 				}
 				sum.extCalls[name] = true
+				if strings.HasPrefix(name, "(*sync.Map).Load") || name == "(*sync.Map).Range" || (strings.HasPrefix(name, "(*sync/atomic.") && strings.HasSuffix(name, ").Load")) {
+					if len(com.Args) > 0 {
+						if g, ok := com.Args[0].(*ssa.Global); ok {
+							sum.globReads[g] = true
+						}
+					}
+				}
 				if idx, ok := extWrites[name]; ok && idx >= 0 && idx < len(com.Args) {
 					addWrite(st.ownOf(com.Args[idx]), name+" writes through "+valueDesc(com.Args[idx]), "call:"+name, in, nil, fn, m.InstrPos(in))
 				}
